@@ -862,6 +862,65 @@ func runC14Sequential(t *fw.T) {
 			}
 		}
 	}
+	// a Compiler that is configured again (WithPrettyPrint called a second time with other options) prints like a fresh
+	// compiler with the last configuration: nothing of the earlier one survives
+	if len(trees) > 0 {
+		type conf struct {
+			opts []compiler.PrettyPrintOption
+			cfg  Cfg
+		}
+		confs := []conf{
+			{[]compiler.PrettyPrintOption{compiler.WithTabs(), compiler.WithSemi(false)}, Cfg{Pretty: true, Tabs: true, NoSemi: true}},
+			{[]compiler.PrettyPrintOption{compiler.WithSpaces(4)}, Cfg{Pretty: true, Spaces: 4}},
+			{[]compiler.PrettyPrintOption{compiler.WithSemi(false)}, Cfg{Pretty: true, Spaces: 2, NoSemi: true}},
+			{nil, Cfg{Pretty: true, Spaces: 2}},
+			{[]compiler.PrettyPrintOption{compiler.WithSpaces(1), compiler.WithSemi(true)}, Cfg{Pretty: true, Spaces: 1}},
+		}
+		k := compiler.New()
+		for _, ci := range r.Perm(len(confs)) {
+			c := confs[ci]
+			prog := trees[r.IntN(len(trees))]
+			var got, want string
+			if !t.Guard("reconfigured compiler", nil, func() {
+				k = k.WithPrettyPrint(c.opts...)
+				got = k.Compile(prog).Code
+				want = c.cfg.Compile(prog).Code
+			}) {
+				return
+			}
+			t.Count("compilations_on_reconfigured_compilers", 1)
+			if got != want {
+				t.Violate("reconfigured-compiler-differs", c.cfg.String(), fmt.Sprintf("a Compiler configured again with WithPrettyPrint (now %s) prints differently from a fresh compiler with those options: %s", c.cfg, firstDiff(want, got)), nil)
+				return
+			}
+		}
+	}
+	// a tool edits the trivia of one tree in place (a comment-rewriting pass): trees from other parsers - parsed before or
+	// after - are their own
+	{
+		src := "a\nb\n// note\nc\n\n\nd = 1\n{\n  e\n}\n"
+		bad := false
+		t.Guard("trivia edited in place", nil, func() {
+			t1 := parse(src, Mode{}).Prog
+			before := CfgPretty.Compile(t1).Code
+			t2 := parse(src, Mode{}).Prog
+			n := editTriviaInPlace(t2)
+			t.Count("trivia_entries_edited_in_place_on_another_tree", n)
+			t3 := parse(src, Mode{}).Prog
+			if after := CfgPretty.Compile(t1).Code; after != before {
+				t.Violate("trees-share-trivia-storage", "earlier tree", "editing the leading comments of one tree in place changed the pretty output of a tree parsed earlier by another parser: "+firstDiff(before, after), nil)
+				bad = true
+				return
+			}
+			if fresh := CfgPretty.Compile(t3).Code; fresh != before {
+				t.Violate("trees-share-trivia-storage", "later tree", "editing the leading comments of one tree in place changed the pretty output of a tree parsed afterwards: "+firstDiff(before, fresh), nil)
+				bad = true
+			}
+		})
+		if bad {
+			return
+		}
+	}
 	// a caller completes the source maps it was given (File, Sources, SourcesContent, as the README shows): what it
 	// writes into one result shows in no other result, before or after - also for programs without any mapping (empty
 	// source, comments only)
@@ -1004,6 +1063,50 @@ func runC14Sequential(t *fw.T) {
 	}
 	checkPackageTables(t)
 	t.Distinct(fmt.Sprint("seq", idxs))
+}
+
+// editTriviaInPlace overwrites every entry of every token's LeadingComments in the tree (no slice is re-allocated).
+func editTriviaInPlace(prog *ast.Program) int {
+	n := 0
+	seen := map[uintptr]bool{}
+	tokT := reflect.TypeOf(token.Token{})
+	var walk func(v reflect.Value)
+	walk = func(v reflect.Value) {
+		switch v.Kind() {
+		case reflect.Interface:
+			if !v.IsNil() {
+				walk(v.Elem())
+			}
+		case reflect.Ptr:
+			if v.IsNil() || seen[v.Pointer()] {
+				return
+			}
+			seen[v.Pointer()] = true
+			walk(v.Elem())
+		case reflect.Struct:
+			if v.Type() == tokT {
+				lc := v.FieldByName("LeadingComments")
+				for i := 0; i < lc.Len(); i++ {
+					if lc.Index(i).CanSet() {
+						lc.Index(i).SetString("// rewritten by a tool")
+						n++
+					}
+				}
+				return
+			}
+			for i := 0; i < v.NumField(); i++ {
+				if v.Type().Field(i).IsExported() {
+					walk(v.Field(i))
+				}
+			}
+		case reflect.Slice:
+			for i := 0; i < v.Len(); i++ {
+				walk(v.Index(i))
+			}
+		}
+	}
+	walk(reflect.ValueOf(prog))
+	return n
 }
 
 func checkPackageTables(t *fw.T) {
